@@ -222,6 +222,8 @@ def fmt(t):
         return "loop<%s>" % (t[1],)
     if k == "undef":
         return "undef"
+    if k == "moved":
+        return "<moved>"
     return str(t)
 
 
@@ -316,6 +318,9 @@ class Engine:
         self.opaque_pure = set(opaque_pure)
         self.notes = []
         self.in_discovery = set()
+        self.track_moves = False
+        self.own_closures_only = False
+        self.top_root = None
 
     def cfg(self, fid):
         if fid not in self.cfgs:
@@ -326,6 +331,7 @@ class Engine:
     def table(self, fid, arg_terms=None, start_block=0, stop_blocks=()):
         """decision table (list of Row) of function `fid`."""
         fn = self.fx.fns[fid]
+        self.top_root = self.fx.root_fn(fid)
         st = St()
         frame = self.new_frame(fn)
         names = arg_names(fn)
@@ -410,8 +416,16 @@ class Engine:
     # ---------------------------------------------------------------- operands
     def operand(self, frame, st, o):
         k = o["k"]
-        if k in ("copy", "move"):
+        if k == "copy":
             return self.read(frame, st, o["place"])
+        if k == "move":
+            v = self.read(frame, st, o["place"])
+            pl = o["place"]
+            # a moved-from local no longer owns the value (matters for unelaborated drops in mir_built)
+            if not any(e["k"] == "deref" for e in pl["proj"]) and self.track_moves and v[0] != "ptr":
+                root, path = self.resolve(frame, st, pl)
+                self.write_rp(st, root, path, ("moved",), log=False)
+            return v
         if k == "const":
             if "fn" in o:
                 return ("fnptr", o["fn"].get("resolved") or o["fn"]["path"])
@@ -544,6 +558,8 @@ class Engine:
                 b = t["target"]
                 continue
             if k == "drop":
+                rp = self.resolve(frame, st, t["place"])
+                st.events.append(("drop", t["place"]["ty"], rp, site, self.read_rp(st, rp[0], rp[1])))
                 b = t["target"]
                 continue
             if k == "return":
@@ -723,6 +739,7 @@ class Engine:
         fixpoint) so that the state at the head stands for 'after any number of iterations'."""
         key = ("loop", frame["fn"]["id"], head)
         fid = frame["id"]
+        # start from what earlier visits of this loop (on other paths) found: converges in one dry run
         modset = set()
         for _ in range(6):
             s0 = st.fork()
@@ -745,9 +762,16 @@ class Engine:
             if found <= modset:
                 break
             modset |= found
-        self.loop_modsets[key] = modset
+        self.loop_modsets[key] = {(self._rebase(r, None), p) for (r, p) in modset} | set(self.loop_modsets.get(key, ()))
         self.havoc(st, modset, fid, head)
         st.events.append(("loop", frame["fn"]["id"], head, tuple(sorted(modset, key=str))))
+
+    @staticmethod
+    def _rebase(root, fid):
+        """frame-local roots are stored frame-independently (frame id None) and re-instantiated per visit"""
+        if root[0] == "L":
+            return ("L", fid, root[2]) if root[1] is None or fid is None else root
+        return root
 
     def loop_exit_blocks(self, frame, body):
         cfg = frame["cfg"]
@@ -857,6 +881,8 @@ class Engine:
         if self.inline_only is not None and target not in self.inline_only:
             fn = self.fx.fns[target]
             if fn["kind"] != "closure":
+                return False
+            if self.own_closures_only and self.top_root is not None and self.fx.root_fn(target) != self.top_root:
                 return False
         return True
 
